@@ -126,6 +126,15 @@ func genGrpcBroker(o opts, mux bool) []gbCase {
 			c.Horizon = t + 1500
 			cs = append(cs, c)
 		}
+		// one listener, several connections over time: a dial-first establishment, and a further dial of the same id once the
+		// first knock is more than 5 s old (in both directions)
+		{
+			c := gbCase{Mux: true, Kind: "directed-redial"}
+			c.Events = []gbEvent{{0, "host", "dial", 1041}, {300, "plugin", "accept", 1041}, {1500, "plugin", "dial", 42}, {1800, "host", "accept", 42},
+				{7000, "host", "dial", 1041}, {8500, "plugin", "dial", 42}}
+			c.Horizon = 10500
+			cs = append(cs, c)
+		}
 		return cs
 	}
 	directed := [][]gbEvent{
@@ -394,7 +403,8 @@ func runGrpcBroker(o opts, mux bool) error {
 // PluginToHost turns the relative addresses the plugin advertises into paths that exist on the host.
 type transRunner struct {
 	*procRunner
-	dir string
+	dir    string // the plugin's own directory (its working directory)
+	shared string // the socket directory go-plugin created for this runner; the plugin sees it as "s"
 }
 
 func (t *transRunner) PluginToHost(network, addr string) (string, string, error) {
@@ -404,18 +414,34 @@ func (t *transRunner) PluginToHost(network, addr string) (string, string, error)
 	return network, addr, nil
 }
 
+// HostToPlugin: only what lies in the shared directory exists for the plugin (as with a mount into a container); any
+// other host path cannot be translated.
+func (t *transRunner) HostToPlugin(network, addr string) (string, string, error) {
+	if network != "unix" {
+		return network, addr, nil
+	}
+	rel, err := filepath.Rel(t.shared, addr)
+	if err != nil || strings.HasPrefix(rel, "..") || filepath.IsAbs(rel) {
+		return "", "", fmt.Errorf("%s is outside the directory shared with the plugin (%s)", addr, t.shared)
+	}
+	return network, filepath.Join("s", rel), nil
+}
+
 func startTranslatedVP(o vpOpts) (*plugin.Client, vp.Caller, error) {
 	pdir, err := os.MkdirTemp("", "tr")
 	if err != nil {
 		return nil, nil, err
 	}
-	os.MkdirAll(filepath.Join(pdir, "s"), 0o755)
 	cfg := vpClientConfig(o)
 	cmd := cfg.Cmd
 	cfg.Cmd = nil
 	cfg.RunnerFunc = func(l hclog.Logger, spec *exec.Cmd, tmp string) (runner.Runner, error) {
 		real := exec.Command(cmd.Path)
 		real.Dir = pdir
+		// the socket directory go-plugin made for this runner is "mounted" into the plugin's directory as s
+		if err := os.Symlink(tmp, filepath.Join(pdir, "s")); err != nil {
+			return nil, err
+		}
 		var env []string
 		for _, e := range append(append([]string{}, cmd.Env...), spec.Env...) {
 			if strings.HasPrefix(e, plugin.EnvUnixSocketDir+"=") || strings.HasPrefix(e, "TMPDIR=") {
@@ -428,7 +454,7 @@ func startTranslatedVP(o vpOpts) (*plugin.Client, vp.Caller, error) {
 		if err != nil {
 			return nil, err
 		}
-		return &transRunner{procRunner: pr, dir: pdir}, nil
+		return &transRunner{procRunner: pr, dir: pdir, shared: tmp}, nil
 	}
 	cl := plugin.NewClient(cfg)
 	type res struct {
